@@ -5,8 +5,8 @@ CONSTANTS
   DynLo = 5
   WksAddr = 2
   Names = {"wk", "n1", "n2"}
-  MaxSock <- Max41
-  KindSeq <- SeqNames
+  MaxSock <- Max31
+  KindSeq <- SeqNamesQ
   Roles <- NameOps
   Msgs = {1, 2}
   BindAddrs <- BA
